@@ -2,7 +2,7 @@ SPECIFICATION Spec
 CONSTANTS
   Budget = 2
   MaxTok = 40
-  K = 1
+  K = 4
   Dump = TRUE
 INVARIANT TypeOK
 INVARIANT Balanced
